@@ -177,7 +177,11 @@ Inductive event :=
 | STrack (s : sid)                               (* WithCancel + addStream *)
 | SStart (s : sid)                               (* ss.Handler invoked *)
 | SEnd (s : sid)                                 (* handler / header phase over: removeStream *)
-| RemoveStream (p : pid) (s : sid).              (* removeStream called directly *)
+| RemoveStream (p : pid) (s : sid)               (* removeStream called directly *)
+| BlockPeer (p : pid).                           (* Service.blockPeer(p, _, _): the blocklist is another
+                                                    structure of the Service; blockPeer does not
+                                                    touch the registry (anchored: it calls neither
+                                                    removePeer nor any other registry method) *)
 
 (* [fixed]: the wrapper honours addStream's result (commit 9c5bd49) *)
 Definition step_with (ap : reg -> conn -> peer -> bool -> reg * bool) (fixed : bool)
@@ -217,6 +221,7 @@ Definition step_with (ap : reg -> conn -> peer -> bool -> reg * bool) (fixed : b
       | _ => r
       end
   | RemoveStream p s => remove_stream r p s
+  | BlockPeer _ => r
   end.
 
 Definition step := step_with add_peer true.
@@ -276,4 +281,5 @@ Definition wfb (evs : list event) : bool :=
 Definition wiring_ok : bool :=
   Generated.c14_new_sets_disconnector && Generated.c14_new_notifies_registry &&
   Generated.c14_wrapper_get_peer && Generated.c14_wrapper_add_stream &&
-  Generated.c14_wrapper_remove_stream.
+  Generated.c14_wrapper_remove_stream &&
+  negb Generated.c14_block_calls_remove_peer && negb Generated.c14_block_calls_get_peer.
